@@ -193,8 +193,20 @@ func analyzeStatement(engine, schema, query string, positional bool) (res analys
 	pre := J{"early": false, "late": false}
 	func() {
 		defer func() { recover() }()
-		if validate.ParamStyle(raw) != nil || validate.ParamRef(raw) != nil {
+		styleErr, refErr := validate.ParamStyle(raw), validate.ParamRef(raw)
+		if styleErr != nil || refErr != nil {
 			pre["early"] = true
+		}
+		// the two verdicts separately: validate.ParamRef is modelled (Query.paramRefCheck), ParamStyle enters as data
+		pre["paramStyle"] = styleErr != nil
+		pre["paramRef"] = 0
+		if refErr != nil {
+			var k int
+			if _, err := fmt.Sscanf(refErr.Error(), "could not determine data type of parameter $%d", &k); err == nil {
+				pre["paramRef"] = k
+			} else {
+				pre["paramRef"] = -1
+			}
 		}
 	}()
 	func() {
